@@ -4,11 +4,14 @@ from harness import common, tlc
 
 def run_pair_profile(res, profile, n_per_job, jobs_per_fw, fws=("tx", "aio"), lens=None, label=None):
     jobs = []
+    # masking / UTF-8 validation run through the NVX C modules rebuilt from /repo on even shards and through the pure-Python
+    # implementations on odd shards
+    nvx_dir = common.build_nvx()
     for fwn in fws:
-        for nvx in (True,):
-            env = common.driver_env(fw=fwn, seed=res.seed)
-            for sh in range(jobs_per_fw):
-                jobs.append(("wschan_drv", [], env, dict(n=n_per_job, shard=sh + (0 if fwn == "tx" else 1000), profile=profile, lens=lens)))
+        for sh in range(jobs_per_fw):
+            use_nvx = (sh % 2 == 0)
+            env = common.driver_env(fw=fwn, seed=res.seed, nvx=use_nvx, nvx_dir=nvx_dir if use_nvx else None)
+            jobs.append(("wschan_drv", [], env, dict(n=n_per_job, shard=sh + (0 if fwn == "tx" else 1000), profile=profile, lens=lens)))
     outs = common.run_drivers_parallel(jobs)
     traces, meta, policy = [], [], []
     for o in outs:
